@@ -5,6 +5,7 @@
  "enforce": ["parsenum_unsigned"],
  "replace": [],
  "loop_contracts": false,
+ "backend": "kissat",
  "annotate": ["util/parsenum.h"],
  "defines": ["VERIF_HALLOC", "NUM_MAXLEN=12", "VERIF_STRMAX=14"],
  "thorough_defines": ["NUM_MAXLEN=70", "VERIF_STRMAX=72"],
@@ -12,7 +13,7 @@
  "native": true,
  "native_models": ["models/num_strto.c"],
  "timeout": 300,
- "assumptions": ["strtoumax behaves as C11 7.22.1.4 in the C locale (models/num_strto.c, executable model with ghost outputs nd/neg/ovf/mag/end)",
+ "assumptions": ["strtoumax behaves as C11 7.22.1.4 in the C locale (models/num_strto.c: white space, sign, base prefix and digit run are scanned concretely; the magnitude of a numeral of two or more digits is uninterpreted; ghost outputs nd/neg/ovf/mag/end)",
                  "symbolic string object of fewer than NUM_MAXLEN characters (24 quick, 70 thorough: enough for 64 binary digits + sign + prefix)"]
 }
 */
@@ -43,6 +44,11 @@ h_pn_unsigned(void)
 	__CPROVER_assert(!(errno == 0) || (g_num_nd && !g_num_ovf && NUM_W(min) <= NUM_V && NUM_V <= NUM_W(max) &&
 	    NUM_V <= NUM_W(typemax) && NUM_W(rv) == NUM_V),
 	    "C16 parsenum_unsigned: success => numeral's mathematical value within [min,max] and [0,typemax], and returned exactly");
+
+	/* an instance of the assertion above on which the model is exact (one digit), so that a counterexample
+	   replays natively: "-1" ... "-z" */
+	__CPROVER_assert(!(errno == 0 && g_num_neg && g_num_ndig == 1 && g_num_mag != 0),
+	    "C16 parsenum_unsigned: a negative one-digit numeral (\"-1\") must not be accepted as an unsigned value");
 
 	VCOVER(errno == 0 && !g_num_neg && g_num_mag > 1000 && g_num_end == slen);
 	VCOVER(errno == 0 && g_num_neg && g_num_mag == 0);			/* "-0" is zero */
